@@ -124,6 +124,7 @@ void h_onconnect(void)
   wire(&impl, &wop, &oop, &fresh, &eng, W);
   /* a registered record is not completed yet (completion erases the entry, see S3 below) */
   __CPROVER_assume(!impl.pendingConnects.present || !wop.done);
+  wop.abandoned = nondet_bool();      /* history: the registering connectSync has already taken its timeout path (see shims/iora_tsync.h) */
   Impl impl0 = impl; SyncConnectOp wop0 = wop;
   Impl_onConnect(self, sid, addr);
   IORA_CANARY("h_onconnect: returns");
@@ -139,9 +140,20 @@ void h_onconnect(void)
   {
     IORA_CANARY("h_onconnect: pending connectSync");
     __CPROVER_assert(G_cb_calls == 0, "S1 pendingConnects contains sid ==> the global onConnect callback is NOT invoked");
-    __CPROVER_assert(wop.done && wop.result.ok && wop.result.value == sid, "S2 ... the waiter's result is ok(sid), done is set");
-    __CPROVER_assert(!impl.pendingConnects.present, "S3 ... and the entry is erased");
-    __CPROVER_assert(wop.cv.n_one == wop0.cv.n_one + 1, "S4 ... and the waiter is notified");
+    if (!wop0.abandoned)
+    {
+      IORA_CANARY("h_onconnect: waiter parked");
+      __CPROVER_assert(wop.done && wop.result.ok && wop.result.value == sid, "S2 ... the waiter's result is ok(sid), done is set");
+      __CPROVER_assert(!impl.pendingConnects.present, "S3 ... and the entry is erased");
+      __CPROVER_assert(wop.cv.n_one == wop0.cv.n_one + 1, "S4 ... and the waiter is notified");
+    }
+    else
+    {
+      /* monitor invariant J of C04: a session created by connectSync and NOT handed to its caller keeps its pendingConnects entry until its
+       * onClose has been delivered - otherwise that onClose (for the engine->close(sid) connectSync issued) reaches the GLOBAL onClose callback */
+      IORA_CANARY("h_onconnect: late completion after the timeout");
+      __CPROVER_assert(impl.pendingConnects.present && impl.pendingConnects.wval == &wop, "J1 late onConnect after the caller timed out: the pendingConnects entry must survive until onClose (else the global onClose fires for a session never handed out)");
+    }
   }
   else
   {
@@ -184,3 +196,18 @@ void h_onclose(void)
     __CPROVER_assert(SAME_OP(wop, wop0) && !impl.pendingConnects.present, "N2 ... and no waiter record or map entry is touched");
   }
 }
+
+#ifdef IORA_SEARCH
+/* SEARCH: the state in which J1 is violated is reached by one fixed history (no data involved): connectSync times out, a late onConnect
+ * arrives, then the onClose for the session connectSync closed. SCEN selects that scripted scenario in replay.cpp. */
+void h_search(void)
+{
+  static Impl impl; static SyncConnectOp wop, oop, fresh; static iora_engine eng; Impl *self = &impl;
+  size_t SCEN = nondet_size_t(); __CPROVER_assume(SCEN == 3);
+  wire(&impl, &wop, &oop, &fresh, &eng, 1);
+  impl.shuttingDown = 0; impl.pendingConnects.present = 1; wop.done = 0; wop.abandoned = 1; wop.result = iora_result_err(TransportError_Timeout);
+  iora_addr addr = {0};
+  Impl_onConnect(self, 1, addr);
+  __CPROVER_assert(impl.pendingConnects.present && impl.pendingConnects.wval == &wop, "J1 late onConnect after the caller timed out: the pendingConnects entry must survive until onClose (else the global onClose fires for a session never handed out)");
+}
+#endif
